@@ -47,6 +47,32 @@ def decodeFs : List Bytes → Parser.Fs
     if tag == ['e'] then { fs with exc := (name, content) :: fs.exc } else { fs with inc := (name, content) :: fs.inc }
   | _ => {}
 
+/-- scenario encoding for `updater.decide`: fields of a release are separated by U+001F, assets by U+001E inside -/
+def parseVersion (b : Bytes) : Option Updater.Version :=
+  if b == "none".toList then none
+  else
+    match splitCh '.' b with
+    | [x, y, z, pre] => some ⟨Update.digitsVal x, Update.digitsVal y, Update.digitsVal z, pre == ['1']⟩
+    | _ => none
+
+def parseAssets : List Bytes → List Updater.Asset
+  | name :: content :: avail :: rest => ⟨name, content, avail == ['1']⟩ :: parseAssets rest
+  | _ => []
+
+def parseRelease (b : Bytes) : Updater.Release :=
+  match splitCh '\x1f' b with
+  | ver :: draft :: pre :: assets => ⟨parseVersion ver, draft == ['1'], pre == ['1'], parseAssets assets⟩
+  | _ => ⟨none, true, true, []⟩
+
+/-- `<hex>  <name>` lines of a checksum file -/
+def lookupChecksum (cs name : Bytes) : Option Bytes :=
+  (scanLines cs).findSome? fun l =>
+    match splitFirst? "  ".toList l with
+    | some (h, n) => if n == name then some h else none
+    | none => none
+
+def containsSub (needle b : Bytes) : Bool := (splitFirst? needle b).isSome
+
 def shellOf (b : Bytes) : Asm.Shell := if b == ['w'] then .windows else .unix
 
 def respond (t : JoinTable) (op : String) (args : List Bytes) : String :=
@@ -120,6 +146,16 @@ def respond (t : JoinTable) (op : String) (args : List Bytes) : String :=
     (match Update.parseRuleId a with
      | .ok r => "ok " ++ toHexArg r.id ++ " " ++ toHexArg r.fileName ++ " " ++ toHexArg (natToBytes r.chainOffset)
      | .error e => faultResp e)
+  | "updater.decide", running :: listOk :: digests :: rels =>
+    -- `digests`: content U+001F digest U+001F … (SHA-256 computed by the harness; abstract in the model)
+    let table := splitCh '\x1f' digests
+    let rec find : List Bytes → Bytes → Bytes
+      | c :: d :: rest, x => if c == x then d else find rest x
+      | _, _ => []
+    (match Updater.decideUpdate (find table) lookupChecksum (containsSub "linux_amd64".toList) (listOk == ['1']) (rels.map parseRelease) (parseVersion running) with
+     | .install b => "ok " ++ toHexArg "install".toList ++ " " ++ toHexArg b
+     | .upToDate => "ok " ++ toHexArg "uptodate".toList
+     | .fail => "ok " ++ toHexArg "fail".toList)
   | "gen.run", ue :: us :: un :: we :: ws :: wn :: input :: files =>
     exceptResp (Asm.generate (tableEngine t) (decodeFs files) ⟨ue, us, un, we, ws, wn⟩ Parser.idOrd Parser.idOrd input)
   | _, _ => "bad-op"
